@@ -79,6 +79,10 @@ def concretize(v: V, m: z3.ModelRef, eng: Engine, depth: int = 3) -> Any:
                     out["fields"][f] = concretize(eng.fac.field(v, f), m, eng, depth - 1)
                 except Exception as exc:  # noqa
                     out["fields"][f] = f"<{exc}>"
+        if v.cls == "Z3Expr":
+            from pyvc.symexec import _Z3OP_IDS
+            inv = {i: n for n, i in _Z3OP_IDS.items()}
+            out["op_name"] = inv.get(out["fields"].get("op"))
         return out
     if isinstance(v, VAny):
         return {"t": "any", "v": str(ev(v.t))}
